@@ -193,7 +193,7 @@ def resolve(rules, path):
 
 # ---- generators -----------------------------------------------------------------------------------------------------
 
-WILD_VALUES = ['', 'a', 'ab', '1', '-1', '1.5', 'a/b', 'ü', '\r', 'a\rb', 'aa', '12']
+WILD_VALUES = ['', 'a', 'ab', '1', '-1', '1.5', 'a/b', 'ü', '\r', 'a\rb', 'aa', '12', 'a/b/by/c', '7/by/8']
 
 
 def instantiate(rule, values=WILD_VALUES):
